@@ -168,20 +168,20 @@ Proof.
   induction l as [|a l IH]; intros r dA dB H; cbn in H; [lia|]. destruct r; cbn; [reflexivity|]. apply IH. lia.
 Qed.
 
-(* grid_search = every row on its own: for every grid, parameter map, step size and number of steps *)
-Theorem grid_impl_spec : forall C pmap vals permute dt n rows tr,
-  grid_impl C pmap vals permute dt n = Some (rows, tr) ->
+(* grid_search = every row adapted (as adapt_circuit adapts it) and simulated on its own *)
+Theorem grid_impl_gen_spec : forall fx C pmap vals permute dt n rows tr,
+  grid_impl_gen fx C pmap vals permute dt n = Some (rows, tr) ->
   linearize 0 vals permute = Some rows /\
-  forall r j, (r < length rows)%nat -> nth r (nth j tr []) [] = nth j (nth r (grid_spec C pmap rows dt n) []) [].
+  forall r j, (r < length rows)%nat ->
+    nth r (nth j tr []) [] = nth j (let C' := adapt_gen fx C pmap (nth r rows []) in traj dt C' (x0 C') 0 n) [].
 Proof.
-  intros C pmap vals permute dt n rows tr H. unfold grid_impl in H.
+  intros fx C pmap vals permute dt n rows tr H. unfold grid_impl_gen in H.
   destruct (linearize 0 vals permute) as [rows'|]; [|discriminate]. inversion H; subst rows' tr. clear H.
   split; [reflexivity|]. intros r j Hr.
-  set (Cs := map (adapt C pmap) rows).
+  set (Cs := map (adapt_gen fx C pmap) rows).
   assert (HL : length Cs = length rows) by (unfold Cs; apply map_length).
-  rewrite union_trajectory by (rewrite ?map_length; lia).
-  unfold grid_spec. rewrite (nth_map_lt _ rows r [] []) by exact Hr. cbn zeta.
-  assert (E : nth r Cs dC = adapt C pmap (nth r rows [])) by (unfold Cs; apply nth_map_lt; exact Hr).
+  rewrite union_trajectory by (rewrite ?map_length; lia). cbn zeta.
+  assert (E : nth r Cs dC = adapt_gen fx C pmap (nth r rows [])) by (unfold Cs; apply nth_map_lt; exact Hr).
   rewrite E. rewrite (nth_map_lt x0 Cs r dC []) by lia. rewrite E. reflexivity.
 Qed.
 
@@ -210,3 +210,87 @@ Proof.
 Qed.
 Theorem write_hits_k : forall C i v, (i < length (ks C))%nat -> nth i (ks (write C (TK i, v))) 0 = v.
 Proof. intros. cbn. apply set_nth_same. assumption. Qed.
+
+(* ------------------------------------------------------------------------------------------ the ignored edge idx *)
+Lemma set_nth_map {A B} (f : A -> B) : forall (l : list A) j a d, f a = f (nth j l d) -> map f (set_nth l j a) = map f l.
+Proof.
+  intros l j a d H. unfold set_nth. destruct (Nat.ltb j (length l)) eqn:E; [|reflexivity]. apply Nat.ltb_lt in E.
+  rewrite <- (firstn_skipn j l) at 3. rewrite !map_app. f_equal.
+  revert l E H. induction j as [|j IH]; intros l E H; destruct l as [|x l]; cbn in *; try lia.
+  - rewrite H. reflexivity.
+  - apply IH; [lia | exact H].
+Qed.
+
+Lemma write_st : forall C tv, map st (edges (write C tv)) = map st (edges C).
+Proof.
+  intros C [[i|i|j] v]; cbn; try reflexivity.
+  destruct (nth_error (edges C) j) as [[[s t] w]|] eqn:E; [|reflexivity].
+  apply (set_nth_map st _ j _ (s, t, w)). rewrite (nth_error_nth _ _ _ E). reflexivity.
+Qed.
+
+Lemma first_same_st : forall es es' j, map st es = map st es' -> first_same es j = first_same es' j.
+Proof. intros es es' j H. unfold first_same. rewrite H. reflexivity. Qed.
+
+Lemma write_gen_true : forall C tv, write_gen true C tv = write C tv.
+Proof. intros C [[i|i|j] v]; reflexivity. Qed.
+
+Lemma adapt_gen_true : forall C pmap row, adapt_gen true C pmap row = adapt C pmap row.
+Proof.
+  intros C pmap row. unfold adapt_gen, adapt. generalize (flat_map (fun kv : list target * Qc => map (fun tg => (tg, snd kv)) (fst kv)) (combine pmap row)).
+  intro l. revert C. induction l as [|tv l IH]; intro C; [reflexivity|]. cbn [fold_left]. rewrite write_gen_true. apply IH.
+Qed.
+
+(* under the guard (every swept edge is parallel edge 0) adapt_circuit writes where it was asked to write *)
+Theorem adapt_under_guard : forall C pmap row, idx_guard C pmap = true -> adapt_gen false C pmap row = adapt C pmap row.
+Proof.
+  intros C pmap row G. unfold adapt_gen, adapt.
+  assert (HL : forall tv, In tv (flat_map (fun kv : list target * Qc => map (fun tg => (tg, snd kv)) (fst kv)) (combine pmap row)) ->
+                     In (fst tv) (concat pmap)).
+  { intros tv H. apply in_flat_map in H as [[tgs v] [H1 H2]]. apply in_map_iff in H2 as [tg [E H2]]. subst tv. cbn [fst snd] in *.
+    apply in_combine_l in H1. apply in_concat. exists tgs. split; assumption. }
+  revert HL. generalize (flat_map (fun kv : list target * Qc => map (fun tg => (tg, snd kv)) (fst kv)) (combine pmap row)).
+  intro l. unfold idx_guard in G. rewrite forallb_forall in G.
+  assert (K : forall C', map st (edges C') = map st (edges C) -> (forall tv, In tv l -> In (fst tv) (concat pmap)) ->
+              fold_left (write_gen false) l C' = fold_left write l C').
+  { induction l as [|tv l IH]; intros C' HS HL; [reflexivity|]. cbn [fold_left].
+    assert (E : write_gen false C' tv = write C' tv).
+    { destruct tv as [[i|i|j] v]; try reflexivity. unfold write_gen. cbn [fst snd].
+      specialize (G (TW j) (HL _ (or_introl eq_refl))). cbn in G. apply Nat.eqb_eq in G.
+      rewrite (first_same_st _ _ j HS), G. reflexivity. }
+    rewrite E. apply IH; [rewrite write_st; exact HS | intros tv' H'; apply HL; right; exact H']. }
+  intro HL. apply K; [reflexivity | exact HL].
+Qed.
+
+(* the sweep as the code performs it equals every row on its own — when no swept edge has a parallel predecessor *)
+Theorem grid_impl_spec_partial : forall C pmap vals permute dt n rows tr, idx_guard C pmap = true ->
+  grid_impl_gen false C pmap vals permute dt n = Some (rows, tr) ->
+  linearize 0 vals permute = Some rows /\
+  forall r j, (r < length rows)%nat -> nth r (nth j tr []) [] = nth j (nth r (grid_spec C pmap rows dt n) []) [].
+Proof.
+  intros C pmap vals permute dt n rows tr G H. destruct (grid_impl_gen_spec false _ _ _ _ _ _ _ _ H) as [H1 H2].
+  split; [exact H1|]. intros r j Hr. rewrite (H2 r j Hr). cbn zeta. rewrite (adapt_under_guard C pmap _ G).
+  unfold grid_spec. rewrite (nth_map_lt _ rows r [] []) by exact Hr. reflexivity.
+Qed.
+
+(* ... and for every circuit, map and grid once idx is passed through (proposed repair) *)
+Theorem grid_impl_spec_repaired : forall C pmap vals permute dt n rows tr,
+  grid_impl_gen true C pmap vals permute dt n = Some (rows, tr) ->
+  linearize 0 vals permute = Some rows /\
+  forall r j, (r < length rows)%nat -> nth r (nth j tr []) [] = nth j (nth r (grid_spec C pmap rows dt n) []) [].
+Proof.
+  intros C pmap vals permute dt n rows tr H. destruct (grid_impl_gen_spec true _ _ _ _ _ _ _ _ H) as [H1 H2].
+  split; [exact H1|]. intros r j Hr. rewrite (H2 r j Hr). cbn zeta. rewrite adapt_gen_true.
+  unfold grid_spec. rewrite (nth_map_lt _ rows r [] []) by exact Hr. reflexivity.
+Qed.
+
+(* refutation of the unguarded statement for the code as it is: two parallel edges 0 -> 1, the sweep addresses the second *)
+Definition qz (z : Z) : Qc := Q2Qc (inject_Z z).
+Definition par_circ : circ :=
+  {| ks := [qz 0; qz 0]; cs := [qz 0; qz 0]; x0 := [qz 1; qz 0]; edges := [(0%nat, 1%nat, qz 1); (0%nat, 1%nat, qz 2)]; uin := [] |}.
+Lemma idx_ignored_refuted :
+  idx_guard par_circ [[TW 1]] = false /\
+  edges (adapt_gen false par_circ [[TW 1]] [qz 5]) = [(0%nat, 1%nat, qz 5); (0%nat, 1%nat, qz 2)] /\
+  edges (adapt par_circ [[TW 1]] [qz 5]) = [(0%nat, 1%nat, qz 1); (0%nat, 1%nat, qz 5)] /\
+  (match grid_impl_gen false par_circ [[TW 1]] [[qz 5]] false (qz 1) 2 with Some (_, tr) => nth 1 (nth 0 (nth 1 tr []) []) (qz 0) | None => qz 0 end) = qz 7 /\
+  nth 1 (nth 1 (nth 0 (grid_spec par_circ [[TW 1]] [[qz 5]] (qz 1) 2) []) []) (qz 0) = qz 6.
+Proof. vm_compute. repeat split. Qed.
